@@ -1005,3 +1005,99 @@ Proof.
       split; [repeat split|]. split; [reflexivity|]. split; [split; intros; reflexivity|].
       split; [split; assumption|split; reflexivity].
 Qed.
+
+Lemma penalty_handled_of_events sc t t' p :
+  rpc_log t' = breach_events sc t p ++ rpc_log t -> penalty_handled sc t t' p.
+Proof.
+  intros Hl. unfold penalty_handled. rewrite Hl.
+  destruct (breach_events_evidence sc t p) as [He|[[He Hs]|[[r He]|He]]].
+  - left. exact He.
+  - right. left. split; [apply in_or_app; left; exact He|exact Hs].
+  - right. right. left. exists r. apply in_or_app. left. exact He.
+  - right. right. right. exact He.
+Qed.
+
+(* C01, late path: the dispute of the submitted locator is in the watcher's cache.  Before the
+   request is answered the penalty has been handled; what is left of the appointment afterwards
+   is decided by the verdict on the penalty's txid. *)
+Theorem add_appointment_triggered sc t signer loc b delay sig d r t' :
+  ti_get (w_cache t) loc = Some d ->
+  w_add_appointment sc t signer loc b delay sig = Ok r t' ->
+  match r with
+  | AddOk st sg sl e =>
+      exists u, signer = Some u /\ st = w_height t /\ sg = sig /\
+        let a := mk_app loc u b delay sig (w_height t) in
+        find_trk (db_trks t) (loc, u) = None /\
+        others_kept t t' (loc, u) /\
+        match decrypt b d with
+        | None => dropped t' (loc, u) /\ rpc_log t' = rpc_log t
+        | Some p =>
+            let s := breach_status sc t p in
+            rpc_log t' = breach_events sc t p ++ rpc_log t /\
+            penalty_handled sc t t' p /\
+            (status_accepted s = true -> find_app (db_apps t') (loc, u) = Some a /\ responded t' (loc, u) d p s) /\
+            (status_rejected s = true -> dropped t' (loc, u)) /\
+            (status_accepted s = false -> status_rejected s = false ->
+             find_app (db_apps t') (loc, u) = Some a /\ find_trk (db_trks t') (loc, u) = None)
+        end
+  | _ => t' = t
+  end.
+Proof.
+  intros Hc Hw. apply w_add_appointment_inner in Hw.
+  destruct Hw as [[-> Hr]|[u [ui [av [t1 [Hs [Hg [He [Hnt [Hsame [-> Hst]]]]]]]]]]].
+  - destruct r; [contradiction|reflexivity..].
+  - rewrite Hc in Hst. exists u. split; [exact Hs|]. split; [reflexivity|]. split; [reflexivity|].
+    cbv zeta. split; [exact Hnt|].
+    unfold same_but_users in Hsame.
+    assert (Hk1 : db_trks t = db_trks t1) by apply Hsame.
+    assert (Ha1 : db_apps t = db_apps t1) by apply Hsame.
+    assert (Hl1 : rpc_log t = rpc_log t1) by apply Hsame.
+    set (a := mk_app loc u b delay sig (w_height t)) in *.
+    assert (Hnt1 : find_trk (db_trks t1) (app_uuid a) = None) by (rewrite <- Hk1; exact Hnt).
+    destruct (store_triggered_spec sc t1 a d t' Hnt1 Hst) as [_ [_ [Hoth Hcase]]].
+    change (app_uuid a) with (loc, u) in *. change (a_blob a) with b in Hcase.
+    split; [unfold others_kept in *; rewrite Ha1, Hk1; exact Hoth|].
+    destruct (decrypt b d) as [p|].
+    + assert (Hbs : breach_status sc t1 p = breach_status sc t p).
+      { apply breach_status_core; symmetry; apply Hsame. }
+      assert (Hbe : breach_events sc t1 p = breach_events sc t p).
+      { unfold breach_events, send_status.
+        replace (r_index t1) with (r_index t) by apply Hsame.
+        replace (car_memo t1) with (car_memo t) by apply Hsame.
+        replace (car_height t1) with (car_height t) by apply Hsame. reflexivity. }
+      cbv zeta in Hcase. rewrite Hbs, Hbe, <- Hl1 in Hcase.
+      destruct Hcase as [Hl [_ Hrest]]. split; [exact Hl|].
+      split; [apply penalty_handled_of_events; exact Hl|exact Hrest].
+    + rewrite Hl1. split; apply Hcase.
+Qed.
+
+(* C01, watch_until_triggered (first half): when the cache does not hold the locator the
+   appointment is stored exactly as submitted and nothing else happens *)
+Theorem add_appointment_stored sc t signer loc b delay sig r t' :
+  ti_get (w_cache t) loc = None ->
+  w_add_appointment sc t signer loc b delay sig = Ok r t' ->
+  match r with
+  | AddOk st sg sl e =>
+      exists u, signer = Some u /\ st = w_height t /\ sg = sig /\
+        find_app (db_apps t') (loc, u) = Some (mk_app loc u b delay sig (w_height t)) /\
+        others_kept t t' (loc, u) /\
+        db_trks t' = db_trks t /\ rpc_log t' = rpc_log t /\ car_memo t' = car_memo t
+  | _ => t' = t
+  end.
+Proof.
+  intros Hc Hw. apply w_add_appointment_inner in Hw.
+  destruct Hw as [[-> Hr]|[u [ui [av [t1 [Hs [Hg [He [Hnt [Hsame [-> Hst]]]]]]]]]]].
+  - destruct r; [contradiction|reflexivity..].
+  - rewrite Hc in Hst. exists u. split; [exact Hs|]. split; [reflexivity|]. split; [reflexivity|].
+    apply store_appointment_spec in Hst. subst t'. unfold same_but_users in Hsame.
+    cbn [db_apps db_trks rpc_log car_memo set_db_apps].
+    assert (Ha1 : db_apps t = db_apps t1) by apply Hsame.
+    split; [rewrite find_app_store; change (app_uuid _) with (loc, u); rewrite uuid_eqb_refl; reflexivity|].
+    split.
+    { split.
+      - intros x Hx. cbn [db_apps set_db_apps]. rewrite Ha1.
+        split; [intros Hi; apply In_store_old; assumption|].
+        intros Hi. apply In_store_inv in Hi. destruct Hi as [->|[Hi _]]; [contradiction Hx; reflexivity|exact Hi].
+      - intros k _. cbn [db_trks set_db_apps]. replace (db_trks t1) with (db_trks t) by apply Hsame. reflexivity. }
+    repeat split; symmetry; apply Hsame.
+Qed.
